@@ -38,7 +38,9 @@ ENCODING_ASSUMPTIONS = [
     "int is mathematical; // and % have floor semantics (divisor sign cases encoded)",
     "objects of model classes are immutable after __init__ (fields of abstract objects are functions of the reference); "
     "class invariants proved as postconditions of __init__ are assumed for every instance",
-    "closed world: the dynamic class of an object is one of the classes defined in the repository sources",
+    "closed world: the dynamic class of an object is one of the instantiable (non-abstract ABC) classes defined in the "
+    "repository sources",
+    "len() of every list / tuple is below 2**63 (CPython Py_ssize_t)",
     "no reflection / monkey-patching on functions under contract; single thread; unbounded recursion depth and memory",
     "docstrings, _logger.* and warnings.* calls are dropped by the extraction; message arguments of raise statements "
     "are evaluated only as far as the engine can (their text is not part of any contract)",
@@ -146,6 +148,9 @@ def run_property(prop: str, tier: str = "quick", replay: Optional[str] = None, t
             # the contract names this property but its body is verified by another property's run (listed, not counted)
             assumed_contracts.append("%s: not verified in this run - %s" % (q, elsewhere[q]))
             continue
+        if getattr(c, "definitions", None) is not None:
+            assumed_contracts.append("%s: defining equation(s) of ghost predicate(s) assumed while its body is verified "
+                                     "(Contract.definitions; conservative extension)" % q)
         try:
             res = eng.verify_function(q, c)
         except Exception as e:  # generator crash = engine limit, never a violation
